@@ -444,11 +444,18 @@ class SDVRP(DepotRef):
             if a == 0:
                 load = 0.0
             else:
-                dlv = min(rem[a], self.cap - load)
+                room = self.cap - load
+                if not EXACT and rem[a] > 0 and room > 0 and abs(rem[a] - room) <= tau(self.cap):
+                    # near tie between "deliver the rest" and "fill the vehicle": float32 may take the other
+                    # branch and keep a residue -> the verdict on this solution is inside the band
+                    global MAY_COUNT
+                    MAY_COUNT += 1
+                dlv = min(rem[a], room)
                 rem[a] -= dlv
                 load += dlv
         left = sum(rem)
-        if band(-left, 1.0) == "not" or any(band(-r, 1.0) == "not" for r in rem):
+        # whole deliveries cancel exactly (x - x), in float32 as in float64: all-zero is clearly served
+        if left != 0.0 and (band(-left, 1.0) == "not" or any(band(-r, 1.0) == "not" for r in rem)):
             v.append(("demand_served", left))
         return v
 
